@@ -342,7 +342,8 @@ def main(tier):
         c.run("checks.c02:STRUCTURED", {"k": 2, "cut": True}, wall_s=3000)
         c.run("checks.c02:STRUCTURED", {"k": 3, "cut": True, "kinds": ("data", "rstack", "reserved")}, wall_s=3000)
         c.run("checks.c02:BOUND", {})
-        c.run("checks.c02:MIXED", {"k": 6, "items": ["FRAME", "SUB", "CAN", "FLAG", "JUNK", "XON", "ESC"]}, wall_s=3000)
+        c.run("checks.c02:MIXED", {"k": 6}, wall_s=3000)
+        c.run("checks.c02:MIXED", {"k": 5, "items": ["FRAME", "SUB", "CAN", "FLAG", "JUNK", "XON", "ESC"]}, wall_s=3000)
         c.run("checks.c02:LONGFRAMES", {"lengths": [1, 2, 64, 126, 127, 128, 129, 130, 150, 199, 200]})
         c.out_of_bounds += ["free streams longer than 6 bytes (whole) / 5 bytes (all partitions); structured family 3 segments, one cut", "tracemalloc measurement"]
     return c.finish()
